@@ -78,8 +78,10 @@ def field_accesses(facts, body):
     return out
 
 
-def fields_read_deep(facts, root_id, depth=1, crate_only=True):
-    """fields read by a function, its closures and (to `depth`) its direct crate-local callees"""
+def fields_read_deep(facts, root_id, depth=1, crate_only=True, free_fn_depth=0):
+    """fields read by a function, its closures and (to `depth`) its direct crate-local callees; beyond `depth`, private free
+    functions of the same module (helpers such as `nodes_deep_equal`, not methods/getters) are still followed up to
+    `free_fn_depth`"""
     seen = set()
     out = set()
     work = [(root_id, 0)]
@@ -91,9 +93,12 @@ def fields_read_deep(facts, root_id, depth=1, crate_only=True):
         for b in facts.family(n):
             for (adt, f, k) in field_accesses(facts, b):
                 out.add((adt, f))
-            if d < depth:
-                for bb, t in b.calls():
-                    c = callee_name(t)
-                    if c in facts.bodies:
-                        work.append((c, d + 1))
+            for bb, t in b.calls():
+                c = callee_name(t)
+                if c not in facts.bodies:
+                    continue
+                if d < depth:
+                    work.append((c, d + 1))
+                elif d < free_fn_depth and c.rsplit("::", 1)[0] == root_id.rsplit("::", 1)[0] and facts.bodies[c].impl is None:
+                    work.append((c, d + 1))
     return out
